@@ -445,7 +445,7 @@ def py_type(I, ctx, v):
         return v.cls
     from . import nparr
     if isinstance(v, nparr.NArr):
-        return I.ndarray_class
+        return v.cls_override or I.ndarray_class
     if isinstance(v, TupleVal):
         return v.cls or b["tuple"]
     if isinstance(v, bool) or (isinstance(v, Sym) and v.kind == "bool"):
